@@ -569,6 +569,14 @@ func (e *Engine) bitop(st *State, op token.Token, x, y Val, rt types.Type) Val {
 			}
 		}
 	}
+	if op == token.XOR && isUnsigned(rt) {
+		// x ^ 1 flips the lowest bit (exact)
+		for _, pr := range [][2]Val{{x, y}, {y, x}} {
+			if pr[1].T == "1" {
+				return term(fmt.Sprintf("(ite (= (mod %s 2) 0) (+ %s 1) (- %s 1))", pr[0].T, pr[0].T, pr[0].T), SInt, rt)
+			}
+		}
+	}
 	name := map[token.Token]string{token.AND: "ubvand", token.OR: "ubvor", token.XOR: "ubvxor", token.AND_NOT: "ubvandnot", token.SHL: "ubvshl", token.SHR: "ubvshr"}[op]
 	e.d.fun(name, []Sort{SInt, SInt}, SInt)
 	if op == token.AND {
@@ -891,6 +899,13 @@ func (e *Engine) doSlice(st *State, in *ssa.Slice) {
 				panic(unsupported("slice of array pointer kind"))
 			}
 			b := term(app("arr2b", arr, lo, hi), SBytes, in.Type())
+			// remember the backing array: a `copy` INTO this slice is a write to the array
+			switch x.K {
+			case KTerm:
+				b.Heap, b.Base, b.Idx = e.d.ElemHeapT(at.Elem()), x.T, lo
+			case KArrPtr:
+				b.Heap, b.Base, b.Idx = x.Heap, x.Base, lo
+			}
 			st.assume(fmt.Sprintf("(= (bcap %s) (- %d %s))", b.T, at.Len(), lo))
 			st.note("slice of a byte array taken as an immutable snapshot (writes through the slice are not reflected in the array)")
 			e.setReg(st, in, b)
